@@ -1,11 +1,14 @@
 //! erbium-verif: drivers that replay scenarios into the real erbium code and
 //! record NDJSON traces for validation by TLC.  See /verif/DESIGN.md.
+mod acl;
 mod dhcp;
 mod dnscache;
 mod dnswalk;
 mod dnswire;
 mod policy;
 mod ratelimit;
+mod rig;
+mod righttp;
 mod store;
 mod wire;
 mod util;
@@ -21,6 +24,8 @@ fn main() {
         "policy" => policy::main(&args[2..]),
         "dnswire" => dnswire::main(&args[2..]),
         "dnscache" => dnscache::main(&args[2..]),
+        "acl" => acl::main(&args[2..]),
+        "rig" => rig::main(&args[2..]),
         "ratelimit" => ratelimit::main(&args[2..]),
         "store" => store::main(&args[2..]),
         "wire" => wire::main(&args[2..]),
